@@ -136,6 +136,7 @@ type anchorFP struct {
 // baseParams: canonical function name -> parameter names the rules know.
 var baseParams = map[string][]string{}
 var closureParams = map[string][]string{}
+var goClosures = map[string]bool{}    // function literals started by a go statement (parent$n)
 var baseGlobals = map[string]string{} // "pkg.name" -> type
 
 // globalAlias: a package-level variable renamed in place (same package, same type, the old name gone and exactly
@@ -375,6 +376,20 @@ func dumpAnchors(c *Ctx, w *os.File) {
 		}
 		cls = append(cls, "closure\t"+fnKey(fn)+"\t"+strings.Join(pn, "\x1e"))
 	}
+	for _, fn := range c.ModFns {
+		if strings.HasPrefix(originPkgPath(fn), "reservoir/tests") {
+			continue
+		}
+		for _, b := range fn.Blocks {
+			for _, in := range b.Instrs {
+				if g, ok := in.(*ssa.Go); ok {
+					if mc, ok := g.Call.Value.(*ssa.MakeClosure); ok {
+						cls = append(cls, "goclosure\t"+fnKey(mc.Fn.(*ssa.Function)))
+					}
+				}
+			}
+		}
+	}
 	sort.Strings(cls)
 	prev := ""
 	for _, l := range cls {
@@ -412,6 +427,10 @@ func readAnchors(path string) []anchorFP {
 		}
 		if len(p) == 3 && p[0] == "closure" {
 			closureParams[p[1]] = strings.Split(p[2], "\x1e")
+			continue
+		}
+		if len(p) == 2 && p[0] == "goclosure" {
+			goClosures[p[1]] = true
 			continue
 		}
 		if len(p) < 5 || p[0] == "type" {
@@ -636,6 +655,46 @@ func applyAnchorAliases(c *Ctx, verifDir string) {
 		nameAlias[rawFnKey(cd.fn)] = cd.missing.name
 		aliasNotes = append(aliasNotes, fmt.Sprintf("anchor alias: %s is analysed as %s (same package, receiver and signature; body similarity %.2f) — the rules know it by that name", rawFnKey(cd.fn), cd.missing.name, cd.score))
 	}
+	// a goroutine body written as a literal (`go func() {...}()`, known to the rules as parent$1) that has become a
+	// named function started the same way (`go j.run(ctx)`): the named function is analysed under the literal's name
+	for cname := range goClosures {
+		i := strings.LastIndex(cname, "$")
+		if i < 0 {
+			continue
+		}
+		parentName := cname[:i]
+		var parent *ssa.Function
+		for name, fn := range cur {
+			if name == parentName || nameAlias[name] == parentName {
+				parent = fn
+			}
+		}
+		if parent == nil || len(parent.AnonFuncs) > 0 {
+			continue // the parent is gone, or still has literals (their numbering is then the rules')
+		}
+		var target *ssa.Function
+		nGo := 0
+		for _, b := range parent.Blocks {
+			for _, in := range b.Instrs {
+				if g, ok := in.(*ssa.Go); ok {
+					nGo++
+					if sc := g.Call.StaticCallee(); sc != nil {
+						target = sc
+					}
+				}
+			}
+		}
+		if nGo != 1 || target == nil || target.Parent() != nil {
+			continue
+		}
+		tk := rawFnKey(target)
+		if baseNames[tk] || nameAlias[tk] != "" || usedName[cname] {
+			continue
+		}
+		nameAlias[tk] = cname
+		usedName[cname] = true
+		aliasNotes = append(aliasNotes, fmt.Sprintf("anchor alias: %s is analysed as %s (the goroutine body the rules know as a literal of %s is now this named function, started by the only go statement there)", tk, cname, parentName))
+	}
 	sort.Strings(aliasNotes)
 }
 
@@ -662,7 +721,7 @@ var pkgPrefixRe = regexp.MustCompile(`[A-Za-z0-9_.\-]+/`)
 // shortTypeName prints a type with package names instead of import paths ("proxy.fetchResult"), under the names
 // the rules know.
 func shortTypeName(t types.Type) string {
-	t = types.Unalias(t) // type propState[T] = commitable[overwritable[T]] is still a commitable
+	t = types.Unalias(t)                         // type propState[T] = commitable[overwritable[T]] is still a commitable
 	s := stripTypeArgs(types.TypeString(t, nil)) // full paths, aliases applied
 	return pkgPrefixRe.ReplaceAllString(s, "")
 }
